@@ -230,6 +230,13 @@ def run(ck, F):
     bad = [(w, [x.decode('utf-8', 'replace') for x in ps[:3]]) for w, ps, _s in rts if ps]
     ck.check(R_sp, 'intern(reserved word)', bool(rts) and not bad, f'{fi["id"]}: the reserved spelling(s) {[b[1] for b in bad]} get a second String',
              loc=fi['loc'], fn=fi['id'])
+    import words as _words
+    _W, _kw, _strays = _words.static_words_outside_table(F)
+    R_tab_only = ck.rule('C15.static-words-in-the-table', 'every statically allocated word (an object of the class of the reserved-word table\'s '
+                         'elements) is an element of that table: interning recognises a reserved spelling by searching the table, so a word '
+                         'kept anywhere else -- a constant of its own, a data member -- is a second Identifier / Logogram / String for its spelling', floor=1)
+    ck.check(R_tab_only, 'known_words', not _strays, f'object(s) of {contracts.short(_W)} outside {_kw["q"]}: ' + '; '.join(f'{w} [{l}]' for w, l in _strays[:4]),
+             loc=(_strays[0][1] if _strays else _kw['loc']))
     # named aliases of the interface: each forwards to a slot accessor (recorded; judged in C02 through contracts)
 
 
